@@ -746,6 +746,10 @@ func FullNameToEnum(files ...File) (map[string]Enum, error) {
 func PackageToNestedNameToEnum(files ...File) (map[string]map[string]Enum, error) {
 	packageToNestedNameToEnum := make(map[string]map[string]Enum)
 	for _, file := range files {
+		// A package that exists has an entry, even if it does not have any enums.
+		if _, ok := packageToNestedNameToEnum[file.Package()]; !ok {
+			packageToNestedNameToEnum[file.Package()] = make(map[string]Enum)
+		}
 		if err := ForEachEnum(
 			func(enum Enum) error {
 				pkg := enum.File().Package()
@@ -777,6 +781,10 @@ func PackageToNestedNameToEnum(files ...File) (map[string]map[string]Enum, error
 func PackageToNestedNameToExtension(files ...File) (map[string]map[string]Field, error) {
 	packageToNestedNameToExtension := make(map[string]map[string]Field)
 	for _, file := range files {
+		// A package that exists has an entry, even if it does not have any extensions.
+		if _, ok := packageToNestedNameToExtension[file.Package()]; !ok {
+			packageToNestedNameToExtension[file.Package()] = make(map[string]Field)
+		}
 		if err := ForEachExtension(
 			func(enum Field) error {
 				pkg := enum.File().Package()
@@ -895,6 +903,10 @@ func FullNameToMessage(files ...File) (map[string]Message, error) {
 func PackageToNestedNameToMessage(files ...File) (map[string]map[string]Message, error) {
 	packageToNestedNameToMessage := make(map[string]map[string]Message)
 	for _, file := range files {
+		// A package that exists has an entry, even if it does not have any messages.
+		if _, ok := packageToNestedNameToMessage[file.Package()]; !ok {
+			packageToNestedNameToMessage[file.Package()] = make(map[string]Message)
+		}
 		if err := ForEachMessage(
 			func(message Message) error {
 				pkg := message.File().Package()
